@@ -1,4 +1,4 @@
-"""C06 -- signature changes keep calls bound to the same values (R06.1-R06.9)."""
+"""C06 -- signature changes keep calls bound to the same values (R06.1-R06.11)."""
 from __future__ import annotations
 
 import ast
@@ -21,6 +21,7 @@ EXPLANATION = (
     "pipeline are not decided."
     ' R06.9 (=R14.14): text handed back by the word finder is cut from the raw source, never from the blanked search text.'
 )
+EXPLANATION += ' R06.10: a `col_offset`/`end_col_offset` of an AST node (UTF-8 bytes) reaches a character offset only through codeanalyze.column_to_offset; it is otherwise only compared, or is the start column of a node tested to be a statement. R06.11: a function that remembers its answer under a key reads, in the computation of the remembered value, nothing of its parameters that the key does not contain (followed into the helpers it calls).'
 ASSUMPTIONS = ["alignment rule of the language reference as recorded in sa/grammar.py DEFAULT_ALIGNMENT",
                "a node of the analysed program = anything derived from self.ast / ast.parse(...) inside the parser classes"]
 
@@ -296,3 +297,12 @@ def check(ctx, res) -> None:
     from .common import raw_text_rule
 
     raw_text_rule(ctx, res, "R06.9")
+    # ---- R06.10 argument texts are cut at character offsets: the byte columns of the AST are converted first
+    from .common import byte_column_rule, column_to_offset_anchor
+
+    column_to_offset_anchor(ctx, res, "R06.10")
+    byte_column_rule(ctx, res, "R06.10", ("rope.refactor.functionutils",))
+    # ---- R06.11 a remembered call rewrite is keyed by everything it was computed from
+    from .common import memo_key_rule
+
+    memo_key_rule(ctx, res, "R06.11", ("rope.refactor.change_signature", "rope.refactor.functionutils"))
